@@ -597,8 +597,10 @@ def main_check(mod, tier: str, seed: int, replay: Optional[str] = None, only: Op
         print(f"HARNESS-ERROR property={prop}: evidence invalid: {e}", file=sys.stderr)
         return 2
     if not only:
-        os.makedirs(EVIDENCE_DIR, exist_ok=True)
-        with open(os.path.join(EVIDENCE_DIR, f"{prop}.json"), "w") as f:
+        # evidence proper only describes runs against /repo itself; scratch trees (sensitivity runs) go aside
+        edir = EVIDENCE_DIR if os.path.realpath(os.environ.get("VERIF_REPO", "/repo")) == os.path.realpath("/repo") else os.path.join(EVIDENCE_DIR, "_scratch")
+        os.makedirs(edir, exist_ok=True)
+        with open(os.path.join(edir, f"{prop}.json"), "w") as f:
             f.write(json.dumps(ev, indent=1, sort_keys=False, default=_json_default))
     print(f"[{prop}] tier={tier} seed={seed} evals={total.evals} distinct_nontrivial={total.distinct_nontrivial} "
           f"violations={len(violations)} wall={wall:.1f}s")
